@@ -49,6 +49,7 @@ static std::vector<double> rand_vector(Rng& rng, unsigned n, int mode)
 
 // ---------------------------------------------------------------------------------------------
 // comparison helpers
+static double CMP_ULPS = 0;	  // 0: identical bits; n: equal to rounding (quotients may be formed with a reciprocal)
 static bool same_matrix(const Matrix& got, const RM& ref, std::string& why)
 {
 	if(got.Rows() != ref.r || got.Columns() != ref.c)
@@ -64,7 +65,7 @@ static bool same_matrix(const Matrix& got, const RM& ref, std::string& why)
 			return false;
 		}
 		for(unsigned j = 0; j < ref.c; j++)
-			if(!same_bits(got[i][j], ref(i, j)))
+			if(!near_ulps(got[i][j], ref(i, j), CMP_ULPS))
 			{
 				why = "entry [" + std::to_string(i) + "][" + std::to_string(j) + "] = " + hexf(got[i][j]) + " expected " + hexf(ref(i, j));
 				return false;
@@ -80,7 +81,7 @@ static bool same_vector(const Vector& got, const std::vector<double>& ref, std::
 		return false;
 	}
 	for(unsigned i = 0; i < ref.size(); i++)
-		if(!same_bits(got[i], ref[i]))
+		if(!near_ulps(got[i], ref[i], CMP_ULPS))
 		{
 			why = "component [" + std::to_string(i) + "] = " + hexf(got[i]) + " expected " + hexf(ref[i]);
 			return false;
@@ -345,8 +346,10 @@ static void algebra_case(Rng& rng, unsigned m, unsigned n, unsigned k)
 		req_matrix(cl, "Matrix::Product(double)", LA.Product(s), sm);
 		req_matrix(cl, "Matrix::operator*(double)", LA * s, sm);
 		req_matrix(cl, "operator*(double,Matrix)", s * LA, sm);
+		CMP_ULPS = 2;
 		req_matrix(cl, "Matrix::Division", LA.Division(sdiv), sd);
 		req_matrix(cl, "Matrix::operator/", LA / sdiv, sd);
+		CMP_ULPS = 0;
 		std::vector<double> vm_(n), vd_(n);
 		for(unsigned i = 0; i < n; i++)
 		{
@@ -355,7 +358,9 @@ static void algebra_case(Rng& rng, unsigned m, unsigned n, unsigned k)
 		}
 		req_vector(cl, "Vector::operator*(double)", Lu * s, vm_);
 		req_vector(cl, "operator*(double,Vector)", s * Lu, vm_);
+		CMP_ULPS = 2;
 		req_vector(cl, "Vector::operator/", Lu / sdiv, vd_);
+		CMP_ULPS = 0;
 	}
 
 	// --- Trace, Norm
